@@ -33,7 +33,7 @@ var c16Targets = []struct {
 	off      int
 }{{"932100", "932100", 0}, {"932110-chain1", "932110", 1}, {"932200", "932200", 0}}
 
-var assemblyFaults = []string{"include-is-a-directory", "missing-include", "missing-exclude-file", "unparsable-entry", "unknown-processor", "bad-cmdline-type", "missing-cmdline-type", "extra-end-marker", "missing-end-marker", "unknown-stored-name", "stored-name-of-another-file", "unsupported-flag", "odd-replacement-list", "flags-in-include"}
+var assemblyFaults = []string{"malformed-prefix-or-suffix", "include-is-a-directory", "missing-include", "missing-exclude-file", "unparsable-entry", "unknown-processor", "bad-cmdline-type", "missing-cmdline-type", "extra-end-marker", "missing-end-marker", "unknown-stored-name", "stored-name-of-another-file", "unsupported-flag", "odd-replacement-list", "flags-in-include"}
 var rulesFaults = []string{"rule-id-absent", "chain-offset-beyond-chain", "chain-offset-past-end-of-chain", "no-rules-file", "two-rules-files", "target-without-rx"}
 var formatFaults = []string{"extra-end-marker", "unsupported-flag"}
 
@@ -77,7 +77,7 @@ func genC16(t *rapid.T) C16Case {
 	switch c.Fault {
 	case "flags-in-include":
 		c.Where = rapid.SampledFrom([]string{"include", "nested-include"}).Draw(t, "where2")
-	case "unsupported-flag":
+	case "unsupported-flag", "malformed-prefix-or-suffix":
 		if c.Where == "include" || c.Where == "nested-include" {
 			c.Where = "top"
 		}
@@ -112,6 +112,8 @@ func c16FaultLines(fault string, variant ...int) []string {
 		v = variant[0]
 	}
 	switch fault {
+	case "malformed-prefix-or-suffix":
+		return [][]string{{"##!$ )"}, {"##!^ ("}, {"##!^ [a-"}, {"##!$ a{2,1}"}, {"##!^ x)y"}}[v%5]
 	case "unknown-processor":
 		return c16UnknownProcessor[v%len(c16UnknownProcessor)]
 	case "bad-cmdline-type":
